@@ -54,7 +54,7 @@ func genNumberField(r *hx.Rand) []byte {
 			if r.Chance(1, 4) {
 				b[0] |= byte(r.Intn(64))
 			}
-			if r.Chance(1, 4) && n > 4 {
+			if r.Chance(1, 4) && n >= 10 {
 				b[n-9+r.Intn(2)] = byte(r.U64()) // near the int64 boundary
 			}
 		}
